@@ -72,7 +72,7 @@ PROPS["C18"] = {
 
 PROPS["C16"] = {
     "lean": ["OlricModel.Generated.ParsersSafe", "OlricModel.Props.C16"],
-    "streams": [("parsers", (2, 60000), (6, 2000000)), ("handlers", (1, 1500), (6, 6000))],
+    "streams": [("parsers", (2, 60000), (6, 2000000)), ("handlers", (2, 800), (6, 6000))],
     "model": True,
     "technique": "Lean 4: verified abstract-interpretation checker (safe_sound) + per-parser `decide` obligations over a model REGENERATED from the Go source by a go/ast translator on every run; translator validated by lock-step runs of the IR interpreter against the real parsers",
     "level_text": "For every Parse*Command function found in internal/protocol at check time — translated mechanically to a small IR — the Lean kernel checks `safe prog = true`, and the once-proved theorem safe_sound lifts that to: for all argument vectors of all lengths and all strconv behaviours the parser returns a command or an error (no out-of-range index/slice, every option loop terminates). The translation is validated against the real functions on exhaustive short vectors and random long ones. Handler-level checks (ids, payloads) are exercised by the cluster handlers stream.",
@@ -228,7 +228,7 @@ PROPS["C14"] = {
 
 PROPS["C19"] = {
     "lean": ["OlricModel.Props.C19"],
-    "streams": [("dmaps", (12, 150), (150, 400))],
+    "streams": [("dmaps", (12, 150), (150, 400)), ("failover", (6, 30), (40, 40))],
     "model": True,
     "level_text": "Theorems: Destroy leaves no entry of the DMap on any member, primary or backup, every key then reads not-found, a later Put works (C19_destroy*); no operation on DMap a changes any copy of a DMap b != a whatever the keys (C19_isolation, from the frame theorem), and the answers on a do not depend on b's contents (C19_results_independent). Tied to the code by the dmaps stream: names/keys with colliding concatenations, Destroy followed by a white-box listing of all fragments' keys and a client iteration.",
     "design_ref": "DESIGN.md §6 C19",
